@@ -7,18 +7,18 @@
   `Lemmas/Stub.lean: names_inv`), all field lists, all `_required` / `_optional` / defaults / constants /
   `_additional_properties` declarations, and both values of the additional-properties default.
 
-  The pinned code violates the property in two regions (both reproduced on the real code by the
-  `stub` suite and listed as known findings):
-    * "required-optional-default": a *required* field of shape `AnyOf[X, None]` is rendered
-      `Optional[X] = None`, i.e. with a default although the constructor requires it
-      (`requiredOptional`);
+  The current code violates the property in one region of the model (reproduced on the real code by the
+  `stub` suite and listed as a known finding):
     * "inherited-additional-properties": with `additional_properties_default = False`, a class that
       inherits `_additional_properties = True` without re-declaring it gets `**kw` in the stub while its
       `__signature__` (built from the class's *own* dict) has no `**kwargs` (`inheritedAddlOn`).
-  Full statement: `C16_statement`; proved: the statement outside exactly these regions
-  (`stub_params_agree_partial`), the exact characterisations (`stub_required_iff`, `stub_kw_iff`), that
-  inside each region the statement fails (`*_disagree`, so the exclusions are tight) and kernel-checked
-  concrete counterexamples.
+  Full statement: `C16_statement`; proved: names and default-iff-not-required agree for every hierarchy
+  unconditionally (`stub_names_agree`, `stub_required_agree`), `**kw` is characterised exactly (`stub_kw_iff`),
+  the statement holds outside exactly that region (`stub_params_agree_partial`; unconditionally for the shipped
+  default, `stub_params_agree_default_on`), fails inside it (`stub_kw_disagree`), with a kernel-checked
+  counterexample.
+  History: until /repo commit 08ea09e a *required* `AnyOf[X, None]` field was rendered `Optional[X] = None`
+  (finding "required-optional-default", fixed); `required_optional_fixed_example` is the former counterexample.
 -/
 import TypedpyModel.Lemmas.Stub
 import TypedpyModel.Lemmas.StubSort
@@ -54,11 +54,7 @@ def HelperAgrees (dflt : Bool) (c : ClassInfo) (h : Helper) : Prop :=
 /-- C16 (model part), full strength -/
 def C16_statement : Prop := ∀ (dflt : Bool) (c : ClassInfo), InitAgrees dflt c ∧ ∀ h, HelperAgrees dflt c h
 
-/-! ### the two known-finding regions (decidable) -/
-
-/-- some non-constant field that is in `cls._required` has the `AnyOf[X, None]` shape -/
-def requiredOptional (dflt : Bool) (c : ClassInfo) : Bool :=
-  (allFields c).any (fun f => !f.isConst && f.optShape && (clsRequired dflt c).contains f.name)
+/-! ### the known-finding region (decidable) -/
 
 /-- default off, nothing declared by the class itself, `True` found further up the MRO -/
 def inheritedAddlOn (dflt : Bool) (c : ClassInfo) : Bool :=
@@ -81,68 +77,48 @@ theorem stub_names_are_nonconstant_fields (dflt apd : Bool) (c : ClassInfo) (n :
 /-! ### default ⇔ not required -/
 
 theorem annEndsNone_false (req : List String) (f : FieldInfo) :
-    annEndsNone req f = false ↔ f.name ∈ req ∧ f.optShape = false := by
+    annEndsNone req f = false ↔ f.name ∈ req := by
   unfold annEndsNone
   by_cases hr : f.name ∈ req <;> cases ho : f.optShape <;> simp [hr]
 
-/-- exact characterisation: the stub parameter has no default iff the field is runtime-required AND is
-    not of the `AnyOf[X, None]` shape -/
-theorem stub_required_iff (dflt apd : Bool) (c : ClassInfo) (n : String) :
-    (⟨n, false⟩ : Param) ∈ (stubInit dflt apd c).params ↔
-      (runtimeRequired dflt c n = true ∧ ∃ f, finalField c n = some f ∧ f.optShape = false) := by
+/-- a stub parameter has no default exactly for the runtime-required fields — for every hierarchy,
+    unconditionally (whatever the shape of the field's type) -/
+theorem stub_required_agree (dflt apd : Bool) (c : ClassInfo) :
+    RequiredAgree dflt c (stubInit dflt apd c).params := by
+  intro n
   show (⟨n, false⟩ : Param) ∈ stubArgs dflt c ↔ _
   rw [mem_stubArgs, runtimeRequired_iff]
   constructor
   · rintro ⟨f, h1, h2, h3⟩
     have hn : f.name = n := (lookupF_some h1).2
-    obtain ⟨hr, ho⟩ := (annEndsNone_false _ f).mp h3.symm
-    exact ⟨⟨⟨f, h1, h2⟩, hn ▸ hr⟩, f, h1, ho⟩
-  · rintro ⟨⟨⟨f, h1, h2⟩, hr⟩, g, hg, ho⟩
-    have hfg : f = g := by
-      have : finalField c n = some f := h1
-      rw [hg] at this; cases this; rfl
-    subst hfg
+    exact ⟨⟨f, h1, h2⟩, hn ▸ (annEndsNone_false _ f).mp h3.symm⟩
+  · rintro ⟨⟨f, h1, h2⟩, hr⟩
     have hn : f.name = n := (lookupF_some h1).2
-    exact ⟨f, h1, h2, ((annEndsNone_false _ f).mpr ⟨hn ▸ hr, ho⟩).symm⟩
+    exact ⟨f, h1, h2, ((annEndsNone_false _ f).mpr (hn ▸ hr)).symm⟩
 
-theorem requiredOptional_iff (dflt : Bool) (c : ClassInfo) :
-    requiredOptional dflt c = true ↔
-      ∃ n f, finalField c n = some f ∧ f.isConst = false ∧ f.optShape = true ∧ n ∈ clsRequired dflt c := by
-  unfold requiredOptional
-  simp only [List.any_eq_true, Bool.and_eq_true, Bool.not_eq_true', List.contains_iff_mem]
+/-- conversely: a stub parameter has a default exactly for the accepted names that are not in `_required` -/
+theorem stub_default_iff (dflt apd : Bool) (c : ClassInfo) (n : String) :
+    (⟨n, true⟩ : Param) ∈ (stubInit dflt apd c).params ↔
+      (n ∈ (runtimeSig dflt c).params.map (·.name) ∧ runtimeRequired dflt c n = false) := by
+  show (⟨n, true⟩ : Param) ∈ stubArgs dflt c ↔ _
+  rw [mem_stubArgs, names_inv]
+  have hreq := runtimeRequired_iff dflt c n
   constructor
-  · rintro ⟨f, hf, ⟨hc, ho⟩, hr⟩
-    exact ⟨f.name, f, lookupF_of_mem (nodupN_allFields c) hf, hc, ho, hr⟩
-  · rintro ⟨n, f, hl, hc, ho, hr⟩
-    have := lookupF_some hl
-    exact ⟨f, this.1, ⟨hc, ho⟩, this.2 ▸ hr⟩
-
-/-- outside the region of finding "required-optional-default": no default ⇔ runtime-required -/
-theorem stub_required_agree_partial (dflt apd : Bool) (c : ClassInfo) (hx : requiredOptional dflt c = false) :
-    RequiredAgree dflt c (stubInit dflt apd c).params := by
-  intro n
-  rw [stub_required_iff]
-  constructor
-  · exact fun h => h.1
-  · intro h
-    refine ⟨h, ?_⟩
-    obtain ⟨⟨f, h1, h2⟩, hr⟩ := (runtimeRequired_iff dflt c n).mp h
-    refine ⟨f, h1, ?_⟩
-    cases ho : f.optShape
+  · rintro ⟨f, h1, h2, h3⟩
+    have hn : f.name = n := (lookupF_some h1).2
+    refine ⟨⟨f, h1, h2⟩, ?_⟩
+    cases hr : runtimeRequired dflt c n
     · rfl
-    · have : requiredOptional dflt c = true := (requiredOptional_iff dflt c).mpr ⟨n, f, h1, h2, ho, hr⟩
-      rw [hx] at this; cases this
-
-/-- inside the region the claim is false: the exclusion is exactly the failure region -/
-theorem stub_required_disagree (dflt apd : Bool) (c : ClassInfo) (hx : requiredOptional dflt c = true) :
-    ¬ RequiredAgree dflt c (stubInit dflt apd c).params := by
-  intro hagree
-  obtain ⟨n, f, h1, h2, ho, hr⟩ := (requiredOptional_iff dflt c).mp hx
-  have hreq : runtimeRequired dflt c n = true := (runtimeRequired_iff dflt c n).mpr ⟨⟨f, h1, h2⟩, hr⟩
-  obtain ⟨_, g, hg, hgo⟩ := (stub_required_iff dflt apd c n).mp ((hagree n).mpr hreq)
-  have : finalField c n = some f := h1
-  rw [hg] at this; cases this
-  rw [ho] at hgo; cases hgo
+    · have := (annEndsNone_false _ f).mpr (hn ▸ (hreq.mp hr).2)
+      rw [this] at h3; cases h3
+  · rintro ⟨⟨f, h1, h2⟩, hr⟩
+    have hn : f.name = n := (lookupF_some h1).2
+    refine ⟨f, h1, h2, ?_⟩
+    cases ha : annEndsNone (clsRequired dflt c) f
+    · have hmem := (annEndsNone_false _ f).mp ha
+      have : runtimeRequired dflt c n = true := hreq.mpr ⟨⟨f, h1, h2⟩, hn ▸ hmem⟩
+      rw [hr] at this; cases this
+    · rfl
 
 /-! ### `**kw` -/
 
@@ -192,18 +168,16 @@ theorem helper_fields_agree (dflt apd : Bool) (c : ClassInfo) (h : Helper) :
     cases hq : q.hasDefault <;> simp
   · simp [stubHelperFields, stubInit, List.map_map, Function.comp_def]
 
-/-! ### the property outside the known-finding regions -/
+/-! ### the property outside the known-finding region -/
 
-theorem stub_params_agree_partial (dflt : Bool) (c : ClassInfo)
-    (h1 : requiredOptional dflt c = false) (h2 : inheritedAddlOn dflt c = false) :
+theorem stub_params_agree_partial (dflt : Bool) (c : ClassInfo) (h2 : inheritedAddlOn dflt c = false) :
     InitAgrees dflt c ∧ ∀ h, HelperAgrees dflt c h :=
-  ⟨⟨stub_names_agree dflt dflt c, stub_required_agree_partial dflt dflt c h1, stub_kw_agree_partial dflt c h2⟩,
+  ⟨⟨stub_names_agree dflt dflt c, stub_required_agree dflt dflt c, stub_kw_agree_partial dflt c h2⟩,
    fun h => ⟨helper_fields_agree dflt dflt c h, stub_kw_agree_partial dflt c h2⟩⟩
 
-/-- with the shipped default (`additional_properties_default = True`) only the first region exists -/
-theorem stub_params_agree_default_on (c : ClassInfo) (h1 : requiredOptional true c = false) :
-    InitAgrees true c ∧ ∀ h, HelperAgrees true c h :=
-  stub_params_agree_partial true c h1 (by simp [inheritedAddlOn])
+/-- with the shipped default (`additional_properties_default = True`) the property holds for every hierarchy -/
+theorem stub_params_agree_default_on (c : ClassInfo) : InitAgrees true c ∧ ∀ h, HelperAgrees true c h :=
+  stub_params_agree_partial true c (by simp [inheritedAddlOn])
 
 /-! ### ordering -/
 
@@ -251,15 +225,15 @@ theorem stub_imports_sorted (xs : List (String × String)) : (renderImports xs).
 
 /-! ### kernel-checked counterexamples (the inputs replayed on the real code by the `stub` suite) -/
 
-/-- `class K(Structure): e: AnyOf[Integer, None]; s: String` — `e` is required -/
+/-- `class K(Structure): e: AnyOf[Integer, None]; s: String` — `e` is required.  The counterexample of the
+    fixed finding "required-optional-default": the stub now keeps `e` mandatory. -/
 def ceRequiredOptional : ClassInfo :=
   .mk { name := "K", fields := [{ name := "e", optShape := true }, { name := "s" }] } []
 
-theorem required_optional_counterexample :
+theorem required_optional_fixed_example :
     runtimeRequired true ceRequiredOptional "e" = true ∧
-    (stubInit true true ceRequiredOptional).params = [⟨"s", false⟩, ⟨"e", true⟩] ∧
-    ¬ RequiredAgree true ceRequiredOptional (stubInit true true ceRequiredOptional).params := by
-  refine ⟨by decide, by decide, stub_required_disagree true true _ (by decide)⟩
+    (stubInit true true ceRequiredOptional).params = [⟨"e", false⟩, ⟨"s", false⟩] := by
+  decide
 
 /-- `class P(Structure): a: String; _additional_properties = True` / `class Q(P): b: String`,
     `additional_properties_default = False` -/
@@ -274,7 +248,7 @@ theorem inherited_addl_counterexample :
 
 /-- the full-strength statement is false of the model (as it is of the pinned code) -/
 theorem C16_statement_false : ¬ C16_statement := fun h =>
-  required_optional_counterexample.2.2 (h true ceRequiredOptional).1.2.1
+  inherited_addl_counterexample.2.2 (h false ceInheritedAddl).1.2.2
 
 /-! ### non-vacuity -/
 
@@ -293,7 +267,7 @@ theorem stub_params_agree_example :
     (stubInit true true exHierarchy).kw = false ∧ (runtimeSig true exHierarchy).kw = true ∧
     runtimeAdmitsExtra true exHierarchy = false ∧
     (runtimeSig true exHierarchy).params = [⟨"a", false⟩, ⟨"m", false⟩, ⟨"o", true⟩, ⟨"c", true⟩, ⟨"z", true⟩] ∧
-    requiredOptional true exHierarchy = false ∧ inheritedAddlOn true exHierarchy = false ∧
+    inheritedAddlOn true exHierarchy = false ∧
     renderImports [("B", "pkg.b"), ("A", "pkg.a"), ("B", "pkg.b")] = ["from pkg.a import A", "from pkg.b import B"] := by
   decide
 
